@@ -3,6 +3,7 @@ import FP.Model.Euler
 import FP.Model.Search
 import FP.Model.Wrapper
 import FP.Model.Enc.Parse
+import FP.Model.Enc.Handlers
 /-!
 # Line-protocol driver: one JSON request per line on stdin, one JSON answer per line on stdout.
 -/
@@ -51,7 +52,7 @@ def asWOp (j : Json) : Except String WOp := do
   | _ => .error s!"unknown wrapper op {op}"
 
 /-- handlers of the encoder modules (`FP/Model/Enc/*.lean`), tried in order for ops not handled below -/
-def encHandlers : List (String → Json → Option (Except String Json)) := []
+def encHandlers : List (String → Json → Option (Except String Json)) := encHandlersAll
 
 def handle (j : Json) : Except String Json := do
   let op ← jStr j "op"
@@ -123,6 +124,23 @@ def handle (j : Json) : Except String Json := do
     let starts := (jList (·.getStr?) j "starts").toOption.getD []
     let ends := (jList (·.getStr?) j "ends").toOption.getD []
     return graphJson (augment g starts ends).g
+  | "decode.paths" =>
+    -- {"nodes","edges","starts","ends","k", "values": [[u,v,i,val],...]}  (values default 0)
+    let g ← parseGraph j
+    let starts := (jList (·.getStr?) j "starts").toOption.getD []
+    let ends := (jList (·.getStr?) j "ends").toOption.getD []
+    let k ← jNat j "k"
+    let vals ← jArr j "values"
+    let tbl : List ((Edge × Nat) × Rat) ← vals.toList.mapM fun v => do
+      let a ← v.getArr?
+      match a.toList with
+      | [u, w, i, q] => return (((← u.getStr?, ← w.getStr?), ← i.getNat?), ← asRat q)
+      | _ => .error "value quadruple expected"
+    let s := augment g starts ends
+    let x : Edge → Nat → Rat := fun e i => lookupD tbl (e, i) 0
+    match decodePaths s x k with
+    | none => return Json.null
+    | some ps => return Json.arr (ps.map strArr).toArray
   | "lp.kfd" =>
     let inp ← parseFlowInput j
     match ← optField j "given_weights" (asList asRat) with
